@@ -18,7 +18,7 @@ uint64_t nondet_u64(void);
 #define verif_asm_nondet_u64 nondet_u64
 #define VMA_UNROT(x, k) ((uint64_t)(((uint64_t)(x) << (11 * (k))) | ((uint64_t)(x) >> (64 - 11 * (k)))))
 #define VMA_ROT(x, k) ((uint64_t)(((uint64_t)(x) >> (11 * (k))) | ((uint64_t)(x) << (64 - 11 * (k)))))
-#define VMA_W(i, k) (((uint64_t *)state)[4 * (i) + (k)])      /* share k of word i (ASCON_MASKED_MAX_SHARES == 4) */
+#define VMA_W(i, k) (((uint64_t *)state)[ASCON_MASKED_MAX_SHARES * (i) + (k)])      /* share k of word i: each word holds ASCON_MASKED_MAX_SHARES shares */
 #define VMA_S0(i, X2REG) ((i) == 2 ? (uint64_t)~(X2REG) : VMA_W(i, 0))
 #if VERIF_SHARES == 2
 #define VMA_U(i, X2REG) (VMA_S0(i, X2REG) ^ VMA_UNROT(VMA_W(i, 1), 1))
